@@ -83,7 +83,9 @@ def run(ctx):
               '    write((b is int) + 1); write(\' \'); write(t is int); write(\' \'); write((t is byte) is int); write(\' \'); write(b is bool); write(\' \');\n'
               '    write((x is byte) is int); write(\' \'); write(not t); write(\' \'); write((not t) is int); write(\' \'); write(-(b is int)); write(\' \');\n'
               '    int y = b; write(y); write(\' \'); if (x) { write(\'T\'); } else { write(\'F\'); } if (not x) { write(\'T\'); } else { write(\'F\'); }\n'
-              '    try { !truth_is_defeat(not x); write(\'f\'); } undo { write(\'t\'); }\n    write(\';\');\n  }\n}\n')
+              '    try { !truth_is_defeat(not x); write(\'f\'); } undo { write(\'t\'); }\n'
+              '    write((x is bool) == true); write((x is bool) != false); write(true == (x is bool)); write(t == true); if ((x is bool) == true) { write(\'T\'); } else { write(\'F\'); } if (false != (x is bool)) { write(\'T\'); } else { write(\'F\'); }\n'
+              '    try { !truth_is_defeat((x is bool) == true); write(\'f\'); } undo { write(\'t\'); } write((b is bool) == (x is bool)); write((x is bool) == ((2 * x) is bool));\n    write(\';\');\n  }\n}\n')
     cfgs, exps = [], []
     for w in ws:
         g = grid(w, rng, 10 if q else 200)
@@ -94,7 +96,8 @@ def run(ctx):
             tf = lambda v: b'true' if v else b'false'
             parts = [str(sgn(-x, w)).encode(), str(x).encode(), tf(not t), str(b).encode(), tf(t), str(sgn(b + 1, w)).encode(), str(int(t)).encode(),
                      str(int(t)).encode(), tf(b != 0), str(b).encode(), tf(not t), str(int(not t)).encode(), str(sgn(-b, w)).encode(), str(b).encode()]
-            exp += b' '.join(parts) + b' ' + (b'T' if t else b'F') + (b'F' if t else b'T') + (b'f' if t else b't') + b';'
+            exp += b' '.join(parts) + b' ' + (b'T' if t else b'F') + (b'F' if t else b'T') + (b'f' if t else b't')
+            exp += tf(t) * 4 + (b'T' if t else b'F') * 2 + (b't' if t else b'f') + tf((b != 0) == t) + tf(t == (sgn(2 * x, w) != 0)) + b';'
         cfgs.append(Cfg(tuple(str(v) for v in g), w, 400, False))
         exps.append(exp)
     units.append((SRC_UN, cfgs))
